@@ -58,8 +58,7 @@ CLAIMS = {
     "C17": {
         "text": "Claimed for every input, value and option set: unchecked bytes->str/String/char conversions (and transmutes "
                 "to those types) occur only at the reviewed sites, and for each site the bytes that can reach it are bounded "
-                "structurally - the printer emits only ASCII constants, str::as_bytes of a &str, all-ASCII statics and "
-                "range-guarded ASCII casts; the scanners feeding StrRead's unchecked closures cut the input only at ASCII "
+                "structurally - every byte the printer hands to the sink is an ASCII constant, part of a str, or a computed byte whose interval is below 0x80 (each printer entry point evaluated with its parameters ranging over their whole type: char over every scalar value, u8 over 0..=255, enums over every variant; intervals refined at comparisons); the scanners feeding StrRead's unchecked closures cut the input only at ASCII "
                 "bytes (class extraction over all 256 byte values), write only whole UTF-8 to the scratch buffer, start "
                 "from a cleared or validated scratch, and no function that pushes a raw byte is reachable from them in the "
                 "monomorphic call graph; decode_utf8_sequence returns Ok only behind str::from_utf8; a StrRead can only be "
@@ -67,7 +66,7 @@ CLAIMS = {
                 "without fast-float-parsing.",
         "note": _TB + "std's from_utf8 / encode_utf8 / String invariants, itoa and ryu emitting ASCII, core::fmt emitting "
                 "only &str fragments.",
-        "technique": "who-may-call audit of unchecked conversions, def-use classification of every byte source, byte-class "
+        "technique": "who-may-call audit of unchecked conversions, interval analysis of every byte handed to the sink over the parameters' whole types, byte-class "
                      "extraction by conditional constant propagation, dominator checks, call-graph reachability, "
                      "compile_fail witnesses",
     },
@@ -254,7 +253,8 @@ CLAIMS = {
 _ALSO = {
     "C01": ("text reaches an io sink only through write_all / write_fmt (no short write can lose part of the printed "
             "text, for the io-writer and Display entry points); a token `+c` / `-c` with c an R7RS <sign subsequent> "
-            "character (138 cases) is read as a symbol, as the printer writes such names verbatim.", None),
+            "character (138 cases) is read as a symbol, as the printer writes such names verbatim; the integer boundary "
+            "magnitudes (0, 1, 2^63-1, 2^63, 2^63+1, 2^64-1, both signs) keep their representation when read (shared with C05).", None),
     "C02": ("the empty list is printed as `()` under every printer option value; with the nil-as-false option nil is "
             "written exactly as `false` is under every boolean syntax; with Emacs Lisp bytes syntax each of the 256 byte "
             "values is written as a three-digit octal escape between quotes and the reader's octal decoder yields the same "
@@ -270,14 +270,20 @@ _ALSO = {
             "analysis, conditional constant propagation over the first input byte"),
     "C04": ("every collector method records exactly one element per call; strings, byte vectors and identifiers are "
             "handed to the visitor as borrowed data (needed by borrowing targets such as &str); deserialize_newtype_struct "
-            "passes a deserializer over the very same value for all 15 value kinds.", None),
+            "passes a deserializer over the very same value for all 15 value kinds; every other type of the crate that "
+            "implements serde::Deserializer answers like the value deserializer; on the text path the integer boundary "
+            "magnitudes keep their representation (shared with C05).", None),
     "C05": ("the u64/i64 boundary of integer literals (|i64::MIN| accepted as negative, one more goes to the float path) "
-            "is decided on the abstract paths of the number tail.", None),
+            "is decided on the abstract paths of the number tail; the digit loop of parse_num_literal is evaluated on 88 "
+            "boundary literals (u64::MAX, u64::MAX +- 1, 2^64, longest all-max-digit strings, with and without leading "
+            "zeros) in radix 2, 8, 10 and 16: the exact value is handed on up to u64::MAX, the long-integer path is "
+            "taken above it, and no arithmetic overflows on the way (cases, not all literals).", None),
     "C07": ("no buffering writer (whose pending bytes would be flushed in Drop with the error discarded) is interposed on "
             "the print path; local helpers that only forward to write_all count as the write_all they perform.", None),
     "C08": ("for 240 (token text, option values) cases over representative letter-initial texts {nil, t, x, nil:, t:, x:, "
             "...} the token produced is exactly the documented one (postfix keyword first, then nil, then t, else symbol); "
-            "parse_token may be split into loop-free helpers, the evaluation looks through them.",
+            "parse_token may be split into loop-free helpers, the evaluation looks through them; on the leading-digit path "
+            "the token reaches the numeric sub-parser without a textual pre-filter (shared with C02).",
             "conditional constant propagation of parse_token (and the loop-free helpers it is split into) over first bytes, "
             "option values and representative token texts; dominance / call-site audits"),
     "C09": ("a sign followed by a character the macro joins is a symbol for the text parser too (two open findings: `-.`, "
@@ -294,7 +300,9 @@ _ALSO = {
     "C11": ("for a quote shorthand the end position handed to Datum::quotation is read before the quoted datum is parsed; "
             "reader fields are identified by type and accessors by signature; the stream's line/column counter and the "
             "slice's recount special-case exactly the same byte values (only LF) and advance for each of the others (256 "
-            "byte values).", None),
+            "byte values); for each of the 12 non-quote token kinds the span handed to the Datum constructor starts at the "
+            "position read before the token is lexed and ends at a position read after the last thing consumed for that "
+            "datum (the element list of a byte vector, the closing delimiter).", None),
     "C12": ("the fused flag lives in the parser, not in the per-call iterator object, and no function reachable from the "
             "iterator entry points (including value_iter / datum_iter) clears it.", None),
     "C16": ("a hand-written Drop for a spine type may skip the detaching loop only on a test of the chain's own shape "
